@@ -264,20 +264,29 @@ func createUniqueJobs(left, right IndividualNodes, options *IndividualNodesCompa
 			// Ideally we should not get multiple individuals returned. That
 			// would mean that multiple individuals share the same unique
 			// identifier. All we can do in this case is to pick the first
-			// one.
-			if len(bs) > 0 {
+			// one that has not been matched already.
+			for _, b := range bs {
+				// Several individuals on the left may also share a unique
+				// identifier with the same individual on the right. Only the
+				// first one to claim it can be matched with it.
+				_, alreadySent := options.sentB.LoadOrStore(b.Pointer(), nil)
+				if alreadySent {
+					continue
+				}
+
 				options.adjustTotal(totals)
-				ss := a.SurroundingSimilarity(bs[0], options.SimilarityOptions, true)
+				ss := a.SurroundingSimilarity(b, options.SimilarityOptions, true)
 
 				jobs <- &IndividualComparison{
 					Left:         a,
-					Right:        bs[0],
+					Right:        b,
 					Similarity:   ss,
 					certainMatch: true,
 				}
 
 				options.sentA.Store(a.Pointer(), nil)
-				options.sentB.Store(bs[0].Pointer(), nil)
+
+				break
 			}
 		}
 	})
